@@ -279,6 +279,40 @@ impl Phase for RandomArgs {
     }
 }
 
+/// every builtin on every whole number from -1100 to 1100 (as integer and as float; alone and paired with 2, 10 and
+/// 0.5): the exponent range of a double, shift amounts, small powers — whatever a fast path may key on
+struct IntSweep {
+    names: Vec<&'static str>,
+    trees: Vec<Option<Node>>,
+}
+
+const SWEEP_LO: i64 = -1100;
+const SWEEP_N: u64 = 2201;
+
+impl Phase for IntSweep {
+    fn name(&self) -> String {
+        "whole-numbers -1100..1100".into()
+    }
+    fn len(&self) -> u64 {
+        self.names.len() as u64 * SWEEP_N
+    }
+    fn exhaustive(&self) -> bool {
+        true
+    }
+    fn run(&mut self, idx: u64, _r: &mut Rng, out: &mut Out) {
+        let ni = (idx / SWEEP_N) as usize;
+        let k = SWEEP_LO + (idx % SWEEP_N) as i64;
+        let name = self.names[ni];
+        let tree = &self.trees[ni];
+        check_call(out, name, tree, &RV::Int(k), false);
+        check_call(out, name, tree, &RV::Float(k as f64), false);
+        for other in [RV::Int(2), RV::Int(10), RV::Float(0.5)] {
+            check_call(out, name, tree, &RV::Tuple(vec![other.clone(), RV::Int(k)]), false);
+            check_call(out, name, tree, &RV::Tuple(vec![RV::Float(k as f64), other]), false);
+        }
+    }
+}
+
 /// `len` and `str::substring` must use the same indexing unit (bytes or characters); the unit is inferred from the
 /// observed `len` of each subject and `substring` is then checked in that unit.
 struct Consistency {
@@ -557,6 +591,10 @@ pub fn phases(cfg: &Cfg) -> Vec<Box<dyn Phase>> {
             len_tree: build_opt("len(x)"),
             sub3: build_opt("str::substring(x, i, j)"),
             sub2: build_opt("str::substring(x, i)"),
+        }),
+        Box::new(IntSweep {
+            trees: call_trees(&names),
+            names: names.clone(),
         }),
         Box::new(LargeArgs {
             n: cfg.n(6_000, 1_500_000),
